@@ -40,7 +40,7 @@ ASSUME = ['TLC results are exhaustive only within the stated constants (2 oids, 
 TREE = dict(dd.AS_CODE,
             TidFromChangesOnly=False,      # repaired in /repo by b44a8d5 (tpc_begin passes a tid above both layers)
             BlobStoreSkipsBaseCheck=False)   # repaired in /repo by 9bb86b1 (storeBlob makes store()'s merged-serial check)
-# still as the code is (known findings): UndoUncreates, OidProbeByLoad, PackAsCode
+# still as the code is (known findings): UndoUncreates, OidProbeByLoad, PackAsCode, PackRevealsBase
 if os.environ.get('ZV_C16_TREE'):        # self-test against a scratch tree with proposed repairs, e.g. "UndoUncreates=0,PackAsCode=0"
     for kv in os.environ['ZV_C16_TREE'].split(','):
         k, v = kv.split('=')
